@@ -470,3 +470,136 @@ class QSanity(Contract):
                 'monotone_sat': Implies(r <= t, qs(r) <= qs(t)),
                 'in_range': And(qs(r) >= lo, qs(r) <= hi, qw(r) >= lo, qw(r) <= hi),
                 'wrap_period': Implies(same_side, eq(qw(shifted), qw(r)))}
+
+
+# ==========================================================================================================
+@contract
+class WideStore(Contract):
+    """Extended precision (n_word >= 64): a Python integer of ANY size given as a code (raw=True) or as an
+    integer value is stored bit-exactly when in range and saturated / wrapped exactly otherwise, with exact
+    overflow / underflow flags, object storage, and status['extended_prec'] set."""
+    name = 'objects:Fxp.set_val[wide]'
+    layer = 4
+    uses = ('utils:wrap', 'utils:clip', 'objects:Fxp._get_conv_factor', 'objects:Fxp._round', 'objects:Fxp._overflow_action')
+    props = {'*': ['C18'], 'code': ['C18', 'C03', 'C19'], 'in_range': ['C18', 'C02']}
+
+    def configs(self, tier):
+        words = (64, 65, 128, 256) if tier == 'quick' else (64, 65, 66, 72, 96, 127, 128, 129, 200, 256)
+        for n in words:
+            for signed in (True, False):
+                for f in sorted({0, 1, n // 2, n - 1, n}) if tier == 'thorough' else (0, n // 2, n):
+                    for mode in OVERFLOWS:
+                        for route in ('ctor_raw', 'ctor_value', 'set_val_raw', 'call_value', 'setitem_raw'):
+                            yield dict(signed=signed, n_word=n, n_frac=f, mode=mode, route=route)
+        for n in (63, 62, 52):      # the indicator is not set below 64 bits
+            yield dict(signed=True, n_word=n, n_frac=0, mode='saturate', route='ctor_raw')
+
+    def inputs(self, cfg, D):
+        if cfg['n_word'] < 64:
+            return {'c': D.int('c', -2**61, 2**61), 'st': sym_status(D)}
+        return {'c': D.int('c'), 'st': sym_status(D)}
+
+    def run(self, cfg, P, inp):
+        s, n, f, mode, route = cfg['signed'], cfg['n_word'], cfg['n_frac'], cfg['mode'], cfg['route']
+        c = inp['c']
+        if route == 'ctor_raw':
+            x = P.Fxp(c, s, n, f, raw=True, overflow=mode)
+        elif route == 'ctor_value':
+            x = P.Fxp(c, s, n, f, overflow=mode)
+        else:
+            shape = (2,) if route == 'setitem_raw' else ()
+            x = make_fxp(P, s, n, f, codes=[0] * nelem(shape), shape=shape, cfg={'overflow': mode}, status=inp['st'], vdtype=float)
+            if route == 'set_val_raw':
+                x.set_val(c, raw=True)
+            elif route == 'call_value':
+                x(c)
+            else:
+                x.set_val(c, raw=True, index=1)
+        return obs_fxp(x)
+
+    def post(self, cfg, inp, obs):
+        if obs['exc']:
+            return {}
+        s, n, f, mode, route = cfg['signed'], cfg['n_word'], cfg['n_frac'], cfg['mode'], cfg['route']
+        lo, hi = range_of(s, n)
+        c = M(inp['c'])
+        R = c if route in ('ctor_raw', 'set_val_raw', 'setitem_raw') else scale2(c, f)
+        codes = [M(v) for v in elems(obs['val'])]
+        z = codes[-1]
+        st = obs['status']
+        fresh = route in ('ctor_raw', 'ctor_value')
+        o0 = (lambda k: False) if fresh else (lambda k: B(inp['st'][k]))
+        out = {'code': eq(z, OVF(R, s, n, mode)), 'in_range': And(z >= lo, z <= hi),
+               'flag_overflow': Iff(B(st['overflow']), Or(o0('overflow'), R > hi)),
+               'flag_underflow': Iff(B(st['underflow']), Or(o0('underflow'), R < lo)),
+               'storage': (obs['val'].dtype == object) == (n >= 64),
+               'extended_prec': st['extended_prec'] == (n >= 64),
+               'format': And(obs['n_word'] == n, obs['n_frac'] == f, obs['dtype'] == fmt_str(s, n, f))}
+        if route == 'setitem_raw':
+            out['other_unchanged'] = eq(codes[0], 0)
+        return out
+
+
+
+# ==========================================================================================================
+@contract
+class BigIntStore(Contract):
+    """Storing a Python integer of ANY size into a format of 1..52 bits follows C01 exactly (constructor,
+    call, set_val, indexed assignment): code = OVERFLOW(v * 2^n_frac), flags exact; in particular under
+    saturate the bound on the input's own side is stored.  No intermediate may be reduced modulo 2^64."""
+    name = 'objects:Fxp.set_val[python-int of any size]'
+    layer = 4
+    uses = ('utils:wrap', 'utils:clip', 'objects:Fxp._get_conv_factor', 'objects:Fxp._round', 'objects:Fxp._overflow_action')
+    props = {'*': ['C19'], 'code_eq_Q': ['C19', 'C02'], 'own_side': ['C02', 'C19']}
+
+    def configs(self, tier):
+        fm = [(True, 8, 4), (False, 8, 0), (True, 1, 0), (True, 52, 55), (False, 52, 0), (True, 31, 3), (False, 16, 19)]
+        if tier == 'thorough':
+            fm += [(s, n, f) for s in (True, False) for n in (2, 3, 12, 24, 32, 33, 48) for f in (0, n // 2, n, n + 3)]
+        for (s, n, f) in fm:
+            for mode in OVERFLOWS:
+                for route in ('ctor', 'call', 'set_val', 'setitem'):
+                    yield dict(signed=s, n_word=n, n_frac=f, mode=mode, route=route)
+
+    def inputs(self, cfg, D):
+        v = D.int('v')
+        self.exclude_known(cfg, D, v)
+        return {'v': v}
+
+    def exclude_known(self, cfg, D, v):
+        # F6 (open): set_val picks int64 / uint64 storage from |v| < 2^64 and then computes v * 2^n_frac in int64,
+        # reinterprets uint64 values >= 2^63 as negative, and raises OverflowError in the remaining gaps.
+        from fxpv.harness import assume_not_known
+        f = cfg['n_frac']
+        R = scale2(M(v), f)
+        ok_core = And(R < 2**63, R >= -2**63, M(v) < 2**63, M(v) >= -2**63)
+        ok_huge = And(cfg['mode'] == 'saturate', Or(M(v) >= 2**64, M(v) < -2**64))
+        assume_not_known(D, 'F6', Not(Or(ok_core, ok_huge)))
+
+    def run(self, cfg, P, inp):
+        s, n, f, mode, route = cfg['signed'], cfg['n_word'], cfg['n_frac'], cfg['mode'], cfg['route']
+        v = inp['v']
+        if route == 'ctor':
+            x = P.Fxp(v, s, n, f, overflow=mode)
+        else:
+            shape = (2,) if route == 'setitem' else ()
+            x = make_fxp(P, s, n, f, codes=[0] * nelem(shape), shape=shape, cfg={'overflow': mode}, vdtype=float)
+            if route == 'call': x(v)
+            elif route == 'set_val': x.set_val(v)
+            else: x[1] = v
+        return obs_fxp(x)
+
+    def post(self, cfg, inp, obs):
+        if obs['exc']:
+            return {}
+        s, n, f, mode = cfg['signed'], cfg['n_word'], cfg['n_frac'], cfg['mode']
+        lo, hi = range_of(s, n)
+        v = M(inp['v'])
+        R = scale2(v, f)
+        z = M(elems(obs['val'])[-1])
+        st = obs['status']
+        out = {'code_eq_Q': eq(z, OVF(R, s, n, mode)), 'in_range': And(z >= lo, z <= hi),
+               'flag_overflow': Iff(B(st['overflow']), R > hi), 'flag_underflow': Iff(B(st['underflow']), R < lo)}
+        if mode == 'saturate':
+            out['own_side'] = And(Implies(R > hi, eq(z, hi)), Implies(R < lo, eq(z, lo)))
+        return out
